@@ -28,7 +28,7 @@ ASSUMPTIONS = [
     'description; shared misreadings of that description are out of reach',
     'scaled values are compared with 4 float32 ulps (one multiplication)',
 ]
-HOOKS = ['bpch1.return', 'writer.return', 'bpch2.return', 'oracle.compare']
+HOOKS = ['bpch.return', 'bpch1.return', 'writer.return', 'bpch2.return', 'oracle.compare']
 MIN_DISTINCT = {'quick': 150, 'thorough': 2500}
 N = {'quick': 300, 'thorough': 6000}
 JOBS = {'quick': 8}
@@ -39,7 +39,25 @@ def ncases(tier):
 
 
 def gen(rng, idx, tier, seed):
-    return refbpch.gen_spec(rng)
+    spec = refbpch.gen_spec(rng)
+    if idx % 6 == 5 and len(spec['tracers']) >= 2:
+        # an interior time block carries another tracer of the same shape in
+        # one slot (first and last block alike): the fixed-layout reader
+        # cannot represent the file; the default reader must still present
+        # every block under its own name
+        import copy
+        spec['nt'] = int(rng.integers(3, 5))
+        # not the first slot: the first tracer's recurrence is what tells
+        # a reader where a time block ends
+        slot = int(rng.integers(1, len(spec['tracers'])))
+        alt = copy.deepcopy(spec['tracers'][slot])
+        alt.pop('norow', None)
+        used = {tr['id'] for tr in spec['tracers'] if tr['cat'] == alt['cat']}
+        alt['id'] = next(i for i in range(1, 40) if i not in used)
+        alt['name'] = 'ALT%d' % alt['id']
+        alt['scale'] = float(rng.choice([1.0, 1e9, 0.5]))
+        spec['irregular'] = {'slot': slot, 'alt': alt}
+    return spec
 
 
 def lay_tables(d, spec):
@@ -106,7 +124,69 @@ def check_read(f, c, spec, scaled, who, res):
     return problems
 
 
+def run_irregular(spec, res):
+    from PseudoNetCDF.geoschemfiles import bpch, bpch1
+    img = refbpch.encode(spec)
+    c = refbpch.content(spec)
+    dg = digest(spec)
+    problems = []
+
+    def compare(f, who):
+        out = []
+        keys = list(f.variables.keys())
+        for k, raw in c['vars'].items():
+            res.hook('oracle.compare')
+            m = c['meta'][k]
+            if m.get('norow'):
+                continue
+            if k not in keys:
+                out.append('%s: blocks of %s are not presented (%s)'
+                           % (who, k, [x for x in keys if '_' in x][:6]))
+                continue
+            got = np.asarray(f.variables[k][...])
+            if got.shape != raw.shape:
+                out.append('%s: %s has shape %s; the file holds %d blocks '
+                           'of shape %s for it' % (who, k, got.shape,
+                                                   raw.shape[0],
+                                                   raw.shape[1:]))
+                continue
+            if not np.allclose(got.astype('f8'), raw.astype('f8') *
+                               m['scale'], rtol=4 * np.finfo('f4').eps,
+                               atol=0):
+                out.append('%s: %s does not hold the data of its own blocks '
+                           '(times %s)' % (who, k, c['times'][k]))
+        return out
+    with harness.casedir() as d:
+        path = os.path.join(d, 'in.bpch')
+        with open(path, 'wb') as fh:
+            fh.write(img)
+        lay_tables(d, spec)
+        kw = dict(tracerinfo=os.path.join(d, 'tracerinfo.dat'),
+                  diaginfo=os.path.join(d, 'diaginfo.dat'))
+        try:
+            f1 = bpch1(path, **kw)
+            res.hook('bpch1.return')
+            problems += compare(f1, 'bpch1 accepted the file')
+        except Exception:
+            res.hook('bpch1.return')
+            res.facet('irregular:bpch1-rejects')
+        try:
+            f0 = bpch(path, **kw)
+            res.hook('bpch.return')
+            problems += compare(f0, 'default reader bpch (%s)'
+                                % type(f0).__mro__[1].__name__)
+        except Exception as e:
+            res.hook('bpch.return')
+            problems.append('default reader bpch raised %r' % (e,))
+    res.ev(dg, True, ['irregular', 'nt:%d' % spec['nt']])
+    if problems:
+        res.viol('bpch-law-broken:irregular', '; '.join(problems[:5]),
+                 problems=problems[:10], slot=spec['irregular']['slot'])
+
+
 def run(spec, res):
+    if spec.get('irregular'):
+        return run_irregular(spec, res)
     from PseudoNetCDF.geoschemfiles import bpch1, bpch2
     from PseudoNetCDF.pncgen import pncgen
     img = refbpch.encode(spec)
